@@ -58,7 +58,7 @@ CHECKS = {
             "DESIGN.md 5 C11"),
     "C12": ("exploration",
             "invariant checking over generated histories with every call boundary as abandonment point: independent structural diff against the mount-time image vs. on-disk status byte; copy-and-mount of the abandoned image; status byte after unmount()/drop",
-            "Generated-input search: short random histories over every mutating call kind with initial status byte 0..3 on FAT12/16 (0x25) and FAT32 (0x41), volumes whose table entry 1 carries cleared shutdown / error bits; 24 scripted first mutations of a fresh session; the same scripts with a transient storage fault at EVERY device call of the first mutation followed by a second mutation (a faulted call that reports success is judged like any other).",
+            "Generated-input search: short random histories over every mutating call kind with initial status byte 0..3 on FAT12/16 (0x25) and FAT32 (0x41), volumes whose table entry 1 carries cleared shutdown / error bits; 24 scripted first mutations of a fresh session; the same scripts with a transient storage fault at EVERY device call of the first mutation followed by a second mutation (a faulted call that reports success is judged like any other; one that reports the error is judged too unless the failing device call was the marking of the status byte itself), also on storage that makes short transfers.",
             "trusted: refdec-based structural diff (timestamps, status byte, FS-info excluded), proptest",
             "DESIGN.md 5 C12"),
     "C13": ("exploration",
@@ -110,6 +110,23 @@ CHECKS = {
 
 PENDING_REASON = "check under construction in this session; not claimed yet (technique applies, see DESIGN.md)"
 
+# sentences appended to the level text (round 6 additions, DESIGN 10.5b)
+ADDED = {
+    "C01": " A third of the sessions keep access dates. Every alias the library makes up must be the name itself in upper case or a numbered form, otherwise two names of the tree collide through it.",
+    "C02": " Flushes hit by a transient fault and repeated by the caller (Op::FlushRetry) are followed by the ordinary comparison after close.",
+    "C03": " A third of the sessions keep access dates (reads, listings and path walks then rewrite directory entries).",
+    "C05": " A third of the sessions keep access dates.",
+    "C06": " The options are built under the panic guard, in both orders of the sector-size and cluster-size setters.",
+    "C08": " The FAT32 FS-info free count may be stale (0, half, one less, more than the table has); long names may have aliases stored with the 0x05 lead byte.",
+    "C09": " Further targets: reads with the access-date option on, and create / mkdir / move / append on a volume without a free cluster (out-of-space clean-up paths); the full and almost-full directory shapes are confirmed by refdec before the enumeration.",
+    "C10": " Plus a transient fault (hard error or the retryable 'interrupted' condition) at every device call of 24 scripted operations on volumes with two and three mirrored copies: a call that reports success although the fault fired inside it is held to the same byte comparison.",
+    "C13": " A third of the sessions run again in a process whose logger accepts every level (arguments of all log statements evaluated).",
+    "C14": " Flushes repeated after a transient fault are flush points too; a creation time set through the flushed handle is compared in every crash image.",
+    "C17": " Block B2: lead byte 0x05 / 0xE5 / 0x85 / a letter of the short entry x every checksum value carried by the run.",
+    "C19": " A fourth name class (characters with case mappings, incl. sharp s / ligatures / dotless i, exact names only, no case variants in one history) is compared across the unicode and no-unicode builds as well.",
+    "C20": " The next-free hint is modelled and every newly allocated cluster must be the first free one a search from it reaches (wrapping); a completely taken 4 GiB volume leaves the only free clusters just below, at, far below or behind the hint.",
+}
+
 def main():
     hooks_commit = subprocess.run(["git", "-C", "/repo", "log", "--format=%H", "--grep=verif hooks", "-n", "5"], capture_output=True, text=True).stdout.split()
     checks = []
@@ -124,7 +141,7 @@ def main():
             "evidence_file": "/verif/evidence/%s.json" % pid,
             "replay_cmd_template": "./check.sh %s --replay {path}" % pid,
             "engine": "fv",
-            "level_claimed": {"category": cat, "text": text, "design_ref": ref},
+            "level_claimed": {"category": cat, "text": text + ADDED.get(pid, ""), "design_ref": ref},
             "level_note": note,
             "technique": tech,
         })
@@ -144,7 +161,7 @@ def main():
         ],
         "checks": checks,
         "not_applicable": [{"property_id": p, "reason": PENDING_REASON} for p in ALL if p not in CHECKS],
-        "notes": "All checks: exit 0 = held on everything explored, exit 1 + 'VIOLATION property=<id> replay=<path>' = violation, exit 2 = machinery problem. VERIF_SEED selects the PRNG stream. Known findings: /verif/known_findings.json (none open at present; fixed entries with their regression cases). Seeded changes and which check catches them: /verif/seeded/*/meta.json, DESIGN.md 10.6.",
+        "notes": "All checks: exit 0 = held on everything explored, exit 1 + 'VIOLATION property=<id> replay=<path>' = violation, exit 2 = machinery problem. VERIF_SEED selects the PRNG stream. Known findings: /verif/known_findings.json (none open at present; fixed: D1-D26; fixed entries with their regression cases). Seeded changes and which check catches them: /verif/seeded/*/meta.json, DESIGN.md 10.6.",
     }
     json.dump(m, open("/verif/MANIFEST.json", "w"), indent=1)
     print("wrote MANIFEST.json with", len(checks), "checks")
